@@ -6,7 +6,8 @@ BIN     ?= /verif/build/verifsim
 CXX     ?= c++
 CCACHE  := $(shell command -v ccache 2>/dev/null)
 
-CPPFLAGS := -DBOOST_MULTI_INDEX_DISABLE_SERIALIZATION -DBOOST_NO_CXX98_FUNCTION_BASE -DENABLE_EMBEDDED_ASMAP=1 -DBITCOIN_VERIF \
+CPPFLAGS_EXTRA ?=
+CPPFLAGS := $(CPPFLAGS_EXTRA) -DBOOST_MULTI_INDEX_DISABLE_SERIALIZATION -DBOOST_NO_CXX98_FUNCTION_BASE -DENABLE_EMBEDDED_ASMAP=1 -DBITCOIN_VERIF \
             -I$(HOOKS)/src -I$(REPO)/src -I$(REPO)/src/leveldb/include -I$(REPO)/src/minisketch/include -I$(REPO)/src/univalue/include \
             -I$(REPO)/src/secp256k1/include -I/verif/src
 CXXFLAGS := -O1 -g1 -std=c++20 -fPIC -fno-extended-identifiers -fstack-reuse=none -Wall -Wno-unused-parameter -Wno-unused-function -Wno-sign-compare
@@ -17,14 +18,24 @@ LIBS := $(HOOKS)/lib/libtest_util.a $(HOOKS)/lib/libbitcoin_wallet.a $(HOOKS)/li
         $(HOOKS)/lib/libbitcoin_clientversion.a
 SYSLIBS := -lsqlite3 -ldl -lpthread
 
-SRCS := $(wildcard /verif/src/core/*.cpp) $(wildcard /verif/src/engines/*.cpp)
-OBJS := $(patsubst /verif/src/%.cpp,$(OBJ)/%.o,$(SRCS))
+# ENGINES can be narrowed to build a private binary with a single engine (see src/ENGINE_GUIDE.md);
+# EXTRA_SRCS are absolute paths of additional sources (e.g. a mutated private copy of one /repo source file whose
+# object then shadows the archive member of the same name) compiled with the same flags.
+ENGINES ?= $(wildcard /verif/src/engines/*.cpp)
+EXTRA_SRCS ?=
+SRCS := $(wildcard /verif/src/core/*.cpp) $(ENGINES)
+OBJS := $(patsubst /verif/src/%.cpp,$(OBJ)/%.o,$(SRCS)) $(patsubst %.cpp,$(OBJ)/extra/%.o,$(notdir $(EXTRA_SRCS)))
+vpath %.cpp $(sort $(dir $(EXTRA_SRCS)))
 
 all: $(BIN)
 
 $(OBJ)/%.o: /verif/src/%.cpp
 	@mkdir -p $(dir $@)
 	$(CCACHE) $(CXX) $(CPPFLAGS) $(CXXFLAGS) -MMD -MP -c $< -o $@
+
+$(OBJ)/extra/%.o: %.cpp
+	@mkdir -p $(dir $@)
+	$(CXX) $(CPPFLAGS) $(CXXFLAGS) -I$(REPO)/src -c $< -o $@
 
 $(BIN): $(OBJS) $(LIBS)
 	$(CXX) $(LDFLAGS) -o $@ $(OBJS) -Wl,--start-group $(LIBS) -Wl,--end-group $(SYSLIBS)
